@@ -379,8 +379,15 @@ func modelMatchTx(m *refBloom, b *builtTx, update bool) (matched bool, reasons [
 }
 
 func c10Filter(c c10Case, items [][]byte) (*bloom.Filter, *refBloom) {
-	f := bloom.LoadFilter(wire.NewMsgFilterLoad(make([]byte, c.Len), c.K, c.Tweak, wire.BloomUpdateType(c.Flags)))
 	m := newRefBloom(c.Len, c.K, c.Tweak, c.Flags)
+	if c.Tweak%2 == 1 {
+		// as a node sees it: the peer's filterload message arrives with its bits already set; nothing is added locally
+		for _, it := range items {
+			m.add(it)
+		}
+		return bloom.LoadFilter(wire.NewMsgFilterLoad(append([]byte{}, m.bits...), c.K, c.Tweak, wire.BloomUpdateType(c.Flags))), m
+	}
+	f := bloom.LoadFilter(wire.NewMsgFilterLoad(make([]byte, c.Len), c.K, c.Tweak, wire.BloomUpdateType(c.Flags)))
 	for _, it := range items {
 		f.Add(it)
 		m.add(it)
